@@ -235,6 +235,9 @@ ALIASES = {
     "break add": ["ba", "breakadd", "break add", "b a", "b add"],
     "break remove": ["br", "breakremove", "break remove", "b r", "b remove"],
 }
+BAD_UTF8_LINES = [b"echo caf\xe9", b"\xff", b"print r\xc3", b"echo \xed\xa0\x80 x", b"\x80\x80", b"echo \xc0\x80", b"p\xe2\x86", b"echo \xf0\x9f\x8d",
+                  b"registers\xc3", b"\xc3", b"echo \xf8\x88\x80\x80\x80", b"echo a\xe2\x86\x92\xe2b", b"\xf4\x90\x80\x80", b"step\x9f"]
+
 JUNK = ["bogus", "prnt r0", "print r8", "print r0 r1", "move r1", "move r1 x10000", "move r1 -32769", "goto", "goto r1",
         "step in", "break", "break ad x3000", "b", "stepinto -1", "si x", "print 0x", "print ^", "p ^+", "goto ^x8000",
         "move nolabel+1 1", "assembly 1 2", "eval", "echo", "registers now", "quit now", "x x", "continue 1", "p lbl+",
@@ -338,7 +341,16 @@ def text_variant(rnd, case):
     inp = x[i - ninp:i]
     # the argument is a string (characters); the stream is BYTES: the debugger's stdin reader decodes UTF-8 itself (Utf8.v)
     a = [ord(c) for c in arg]
-    stream = list(stdin.encode("utf-8", errors="surrogatepass")) + inp
+    # and bytes need not be UTF-8 at all: lines with stray continuation bytes, truncated and overlong sequences, encoded
+    # surrogates, xFF (the reader hands them on as U+FFFD and never swallows the separator behind them: Utf8.decode_lossy)
+    sparts = list(parts) if mode == "stream" else (list(parts[cut:]) if mode == "split" else [])
+    chunks = [q.encode("utf-8", errors="surrogatepass") for q in sparts]
+    if chunks and rnd.random() < 0.3:
+        for _ in range(rnd.randrange(1, 3)):
+            at = rnd.randrange(0, len(chunks) // 2 + 1) * 2          # in front of a line
+            bad = rnd.choice(BAD_UTF8_LINES) + rnd.choice([b"\n", b";", b"\r\n"])
+            chunks.insert(at, bad); chunks.insert(at + 1, b"")
+    stream = list(b"".join(chunks)) + inp
     nums = x[:i - ninp - 1] + [has, len(a)] + a + [len(stream)] + stream
     return "DBGS " + " ".join(f"{v:x}" for v in nums), mode
 
@@ -566,10 +578,11 @@ def cli_shared_stream(ctx, violations, n=24):
                 cmds.insert(rnd.randrange(len(cmds) + 1), rnd.choice(["step into 3", "si 5", "continue", "step", "s", "c", "step into 4"]))
         wide = safe and k >= 0 and k % 4 == 1
         if wide:
-            # lines with 2-, 3- and 4-byte characters: the one-stream model is ASCII only, so these sessions are
-            # compared with the plain run alone (the debugger's own stdin decoder must hand every line on whole)
+            # lines with 2-, 3- and 4-byte characters and with bytes that are NOT UTF-8 (stray continuation bytes, truncated
+            # sequences, encoded surrogates, xFF): compared with the plain run (the debugger's own stdin decoder must hand every
+            # line on, whole, whatever bytes it holds) and, below, with the model
             for _ in range(rnd.randrange(1, 4)):
-                cmds.insert(rnd.randrange(len(cmds) + 1), "echo " + "".join(rnd.choice(["é", "→", "\U0001F34B", "a", " ", "\U00010000", "\U0010FFFF", "ß", "語"]) for _ in range(rnd.randrange(1, 6))))
+                cmds.insert(rnd.randrange(len(cmds) + 1), "echo " + "".join(rnd.choice(["é", "→", "\U0001F34B", "a", " ", "\U00010000", "\U0010FFFF", "ß", "語", "\udce9", "\udcff", "\udcc3", "\udced\udca0\udc80", "\udce2\udc86", "\udc80"]) for _ in range(rnd.randrange(1, 6))))
         if k >= 0 and (safe or rnd.random() < 0.7):
             cmds.append(rnd.choice(["quit", "q", "QUIT"]))
         if k >= 0 and k % 5 == 3:
@@ -583,10 +596,10 @@ def cli_shared_stream(ctx, violations, n=24):
             sep = rnd.choice(["\n", ";", "\n", " ;\n"])
             script = sep.join(cmds) + rnd.choice(["\n", ";"])
         inp = "".join(rnd.choice("XYZ19 ") for _ in range(rnd.randrange(0, 5)))
-        src = [ord(c) for c in ECHO2]; stream = list((script + inp).encode("utf-8"))
+        src = [ord(c) for c in ECHO2]; stream = list((script + inp).encode("utf-8", "surrogateescape"))       # \udcXX stands for the raw byte XX
         nums = [0, 3000, len(src)] + src + [0, 0, len(stream)] + stream
         cases.append("DBGS " + " ".join(f"{v:x}" for v in nums))
-        jobs.append(lambda sc=script, i=inp: (clicommon.run_cli(exe, ["debug", f, "--minimal"], d, stdin=(sc + i).encode(), timeout=20),
+        jobs.append(lambda sc=script, i=inp: (clicommon.run_cli(exe, ["debug", f, "--minimal"], d, stdin=(sc + i).encode("utf-8", "surrogateescape"), timeout=20),
                                               clicommon.run_cli(exe, ["run", f, "--minimal"], d, stdin=i.encode(), timeout=20)))
         metas.append((script, inp, safe, wide))
     model = ctx.run_model(cases, tag="clishared")
@@ -603,10 +616,11 @@ def cli_shared_stream(ctx, violations, n=24):
                 bad += 1
                 if bad <= 3:
                     violations.append({"kind": "shared-stdin-session", "why": "debugged run (script with multi-byte characters on stdin) differs from the plain run on the same input",
-                                       "case": case, "script_on_stdin": script, "program_input": inp, "cli_exit": rc,
+                                       "case": case, "script_on_stdin": script.encode("utf-8", "surrogateescape").decode("utf-8", "backslashreplace"), "program_input": inp, "cli_exit": rc,
                                        "cli_stdout": so.decode("utf-8", errors="replace")[-400:], "cli_stderr": se.decode("utf-8", errors="replace")[-400:],
                                        "plain_exit": prc, "plain_stdout": pso.decode("utf-8", errors="replace")[-400:]})
-            continue
+                continue
+            cnt -= 1
         if sm is None or sm["kind"] in (3, 4):
             continue
         cnt += 1
@@ -622,7 +636,7 @@ def cli_shared_stream(ctx, violations, n=24):
         if why:
             bad += 1
             if bad <= 3:
-                violations.append({"kind": "shared-stdin-session", "why": why, "case": case, "script_on_stdin": script,
+                violations.append({"kind": "shared-stdin-session", "why": why, "case": case, "script_on_stdin": script.encode("utf-8", "surrogateescape").decode("utf-8", "backslashreplace"),
                                    "program_input": inp, "cli_exit": rc, "cli_stdout": so.decode("utf-8", errors="replace")[-400:],
                                    "cli_stderr": se.decode("utf-8", errors="replace")[-400:], "plain_exit": prc,
                                    "plain_stdout": pso.decode("utf-8", errors="replace")[-400:], "model_exit": want_rc, "model_out": want_out})
